@@ -122,6 +122,26 @@ Definition g_div64 (hi lo y : Z) : outcome (Z * Z) :=
   else if y <=? hi then Panic
   else Ok ((hi * two64 + lo) / y, (hi * two64 + lo) mod y).
 
+(* ---------------- *big.Int (math/big), the three uses in amm.InitialPoolCoinSupply ----------------
+   A *big.Int is translated as the integer it points to, and only while the pointer cannot be
+   shared: a *big.Int variable is assigned from an allocating call only (big.NewInt(k) = k,
+   Int.BigInt() = a fresh copy of the Int's value, int.go:100), never copied, and changed only by
+   the statement  z.Exp(z, y, nil)  on a local variable z.
+   len(b.Text(10)) (intconv.go:15-26): the decimal representation, "-" for a negative number, no
+   prefix: the number of decimal digits of |b| (one for 0) plus one for the sign. *)
+Fixpoint dec_digits_fuel (fuel : nat) (z : Z) : Z :=
+  match fuel with
+  | O => 1
+  | Datatypes.S f => if z <? 10 then 1 else 1 + dec_digits_fuel f (z / 10)
+  end.
+(* the recursion divides by 10 at most log10 z <= log2 z times *)
+Definition dec_digits (z : Z) : Z := dec_digits_fuel (Datatypes.S (Z.to_nat (Z.log2 z))) z.
+Definition dec_text_len (z : Z) : Z := (if z <? 0 then 1 else 0) + dec_digits (Z.abs z).
+(* z.Exp(x, y, nil) (int.go:554): "If m == nil or m == 0, z = x**y unless y <= 0 then z = 1" *)
+Definition big_exp (x y : Z) : Z := if y <=? 0 then 1 else x ^ y.
+(* NewIntFromBigInt (cosmossdk.io/math int.go:109): BitLen > 256 panics "NewIntFromBigInt() out of bound" *)
+Definition g_int_of_big (b : Z) : outcome Z := lift_ovf (chk_int b).
+
 (* ---------------- slices of 64-bit natives ([]uint64, []int64, []int) ----------------
    A slice value is the [list Z] of its elements.  Go slices share backing arrays; the list is an
    exact account as long as no two live slice values share an array that one of them changes.
